@@ -87,30 +87,23 @@ Definition show_outcome (o : outcome) : str :=
 Definition show_exec (args : list str) : str :=
   match args with
   | prefix :: sf :: sn :: cmd :: ks :: rest =>
-    match new_handler prefix with
-    | None => [69]                                            (* "E": New fails *)
-    | Some h0 =>
-      let k := nat_of_str ks in
-      let e := mk_event (if one_byte18 49 sf then Some sn else None) cmd (firstn k rest) in
-      let cargs := skipn k rest in
-      let (t, _) := add_all [] (cmds_of_args (S (length cargs)) 0 cargs) in
-      show_outcome (execute (mk_handler (h_prefix h0) t) e)
-    end
+    let h0 := new_handler prefix in
+    let k := nat_of_str ks in
+    let e := mk_event (if one_byte18 49 sf then Some sn else None) cmd (firstn k rest) in
+    let cargs := skipn k rest in
+    let (t, _) := add_all (h_cmds h0) (cmds_of_args (S (length cargs)) 0 cargs) in
+    show_outcome (execute (mk_handler (h_prefix h0) t) e)
   | _ => bs "?args"
   end.
 
 (* the regular expression alone: which name / remainder / arguments it yields *)
 Definition show_match (prefix text : str) : str :=
-  match new_handler prefix with
-  | None => [69]
-  | Some _ =>
-    match cmd_match prefix text with
-    | None => [45]
-    | Some (n, raw) =>
-      if streqb n help_name then bs "help"
-      else hex n ++ [47] ++ hex raw ++ [47] ++ hexlist (split_args raw) ++ [47] ++
-           show_nat (length (split_args raw))
-    end
+  match cmd_match (h_prefix (new_handler prefix)) text with
+  | None => [45]
+  | Some (n, raw) =>
+    if streqb n help_name then bs "help"
+    else hex n ++ [47] ++ hex raw ++ [47] ++ hexlist (split_args raw) ++ [47] ++
+         show_nat (length (split_args raw))
   end.
 
 Definition run_C18 (suite : str) (args : list str) : option str :=
